@@ -2,8 +2,8 @@ _Q = {"strata": "cte", "allow": "cte_shadow,dup_derived_names", "deny": "cross_j
 _M = {"strata": "cte", "nojoin": "1", "multi": "1", "cfgs": "memb", "max_rows": "2500"}
 ENTRY = {
     "level": "proof",
-    "families": [fam("SQLC28", 260, 12000, opts={"quick": _Q, "thorough": dict(_Q, joins="2")}),
-                 fam("SQLC28", 16, 1000, opts={"quick": _M, "thorough": _M})],
+    "families": [fam("SQLC28", 260, 2600, opts={"quick": _Q, "thorough": dict(_Q, joins="2")}),
+                 fam("SQLC28", 16, 160, opts={"quick": _M, "thorough": _M})],
     "gen_items": [],
     "rule": "generated statements WITH w0 [, w1 [, w2]] AS (filter / join / aggregate blocks; a definition may read its earlier siblings) SELECT ... whose FROM items are "
             "drawn mostly from the CTEs (each referenced 0-4 times, also twice in one FROM), half of them with a nested WITH that re-uses the last outer name inside a derived "
